@@ -107,15 +107,126 @@ Proof.
       split; [exact Hne|]. exists s', l1. split; [right; exact Hs|]. split; assumption.
 Qed.
 
+(* ---- the first source that has the entity *)
+Lemma In_assoc {A} k (v : A) l : In (k, v) l -> exists v', assoc k l = Some v'.
+Proof.
+  induction l as [|[k' v'] r IH]; cbn [assoc In]; [contradiction|].
+  intros [H|H].
+  - inversion H. subst. rewrite String.eqb_refl. exists v. reflexivity.
+  - destruct (String.eqb k' k); [exists v'; reflexivity|exact (IH H)].
+Qed.
+
+Lemma has_entity_iff eid s : has_entity eid s = true <-> exists e, In (eid, e) s.
+Proof.
+  unfold has_entity. split.
+  - destruct (assoc eid s) as [e|] eqn:Ea; [|discriminate]. intros _. exists e. apply assoc_In; exact Ea.
+  - intros [e He]. destruct (In_assoc _ _ _ He) as [e' ->]. reflexivity.
+Qed.
+
+Lemma descriptors_has_entity s eid typ ds : descriptors s eid typ = Some ds -> has_entity eid s = true.
+Proof. unfold descriptors, has_entity. destruct (assoc eid s); [reflexivity|discriminate]. Qed.
+
+(* first_with is exactly "the first source, in load order, that has the entity" *)
+Lemma first_with_spec eid m s :
+  first_with eid m = Some s <->
+  exists pre post, m = (pre ++ s :: post)%list /\ has_entity eid s = true
+                   /\ forall s', In s' pre -> has_entity eid s' = false.
+Proof.
+  split.
+  - revert s. induction m as [|x r IH]; intros s; cbn [first_with]; [discriminate|].
+    destruct (has_entity eid x) eqn:Ex.
+    + intros H. inversion H. subst x. exists [], r. split; [reflexivity|]. split; [exact Ex|]. intros s' [].
+    + intros H. destruct (IH _ H) as [pre [post [Hm [Hs Hpre]]]]. exists (x :: pre), post.
+      split; [cbn; rewrite Hm; reflexivity|]. split; [exact Hs|].
+      intros s' [<-|Hin]; [exact Ex|exact (Hpre _ Hin)].
+  - intros [pre [post [-> [Hs Hpre]]]]. induction pre as [|x r IH]; cbn [app first_with].
+    + rewrite Hs. reflexivity.
+    + rewrite (Hpre x (or_introl eq_refl)). apply IH. intros s' Hin. apply Hpre. right; exact Hin.
+Qed.
+
+Lemma first_with_In eid m s : first_with eid m = Some s -> In s m /\ has_entity eid s = true.
+Proof.
+  intros H. apply first_with_spec in H as [pre [post [-> [Hs _]]]].
+  split; [apply in_or_app; right; left; reflexivity|exact Hs].
+Qed.
+
+Lemma first_with_none eid m : first_with eid m = None <-> forall s, In s m -> has_entity eid s = false.
+Proof.
+  induction m as [|x r IH]; cbn [first_with].
+  - split; [intros _ s []|reflexivity].
+  - destruct (has_entity eid x) eqn:Ex.
+    + split; [discriminate|]. intros H. rewrite (H x (or_introl eq_refl)) in Ex. discriminate.
+    + rewrite IH. split.
+      * intros H s [<-|Hin]; [exact Ex|exact (H _ Hin)].
+      * intros H s Hin. apply H. right; exact Hin.
+Qed.
+
+Lemma first_with_single eid s : has_entity eid s = true -> first_with eid [s] = Some s.
+Proof. intros H. cbn [first_with]. rewrite H. reflexivity. Qed.
+
+(* MetadataStore.service with any number of sources IS the lookup in the first source that has
+   the entity: later sources are never consulted for an entity an earlier source has *)
+Lemma store_service_first m eid typ svc ob s :
+  first_with eid m = Some s -> store_service m eid typ svc ob = store_service [s] eid typ svc ob.
+Proof.
+  intros H. unfold store_service. rewrite H.
+  rewrite (first_with_single eid s (proj2 (first_with_In _ _ _ H))). reflexivity.
+Qed.
+
+Lemma store_service_unknown m eid typ svc ob :
+  first_with eid m = None -> store_service m eid typ svc ob = Unknown.
+Proof. intros H. unfold store_service. rewrite H. reflexivity. Qed.
+
+Definition keep_of (ob : option string) : endpoint -> bool :=
+  match ob with Some b => has_binding b | None => fun _ => true end.
+
+(* what the store answers, exactly: the kept part of the first source's answer, never empty *)
+Lemma store_service_found m eid typ svc ob l :
+  store_service m eid typ svc ob = Found l <->
+  l <> [] /\ exists s l0, first_with eid m = Some s /\ src_service typ svc eid s = Some l0
+                          /\ l = filter (keep_of ob) l0.
+Proof.
+  unfold store_service. fold (keep_of ob). split.
+  - destruct (first_with eid m) as [s|] eqn:Ef; [|discriminate].
+    destruct (src_service typ svc eid s) as [l0|] eqn:Eg; [|discriminate].
+    destruct (filter (keep_of ob) l0) as [|x l'] eqn:Efl; [discriminate|].
+    intros H. inversion H. subst l. split; [discriminate|]. exists s, l0.
+    split; [reflexivity|]. split; [exact Eg|]. symmetry; exact Efl.
+  - intros [Hne [s [l0 [-> [-> Hl]]]]]. rewrite <- Hl. destruct l; [contradiction|reflexivity].
+Qed.
+
 Lemma store_service_sound m eid typ svc ob l :
   store_service m eid typ svc ob = Found l ->
   l <> [] /\ forall ep, In ep l -> publishes m eid typ svc ep /\ (forall b, ob = Some b -> ep_binding ep = b).
 Proof.
-  unfold store_service. intros H. apply store_first_sound in H as [Hne [s [l0 [Hs [Hg Hl]]]]].
+  intros H. apply store_service_found in H as [Hne [s [l0 [Hf [Hg Hl]]]]].
   split; [exact Hne|]. intros ep Hep. subst l. apply filter_In in Hep as [Hin Hk]. split.
   - destruct (src_service_In _ _ _ _ _ _ Hg Hin) as [e [d [H1 [H2 H3]]]].
-    exists s, e, d. repeat split; assumption.
-  - intros b ->. unfold has_binding in Hk. apply String.eqb_eq in Hk. exact Hk.
+    exists s, e, d. split; [exact (proj1 (first_with_In _ _ _ Hf))|]. repeat split; assumption.
+  - intros b ->. unfold keep_of, has_binding in Hk. apply String.eqb_eq in Hk. exact Hk.
+Qed.
+
+(* soundness AND completeness of the lookup against the first source that has the entity, for any
+   number of sources: an endpoint is served for (role, service, binding) iff THAT source lists it *)
+Lemma store_service_exact m eid typ svc b s ep :
+  first_with eid m = Some s ->
+  ((exists l, store_service m eid typ svc (Some b) = Found l /\ In ep l) <->
+   (exists ds, descriptors s eid typ = Some ds
+               /\ In ep (flat_map (fun d => select svc (d_eps d)) ds) /\ ep_binding ep = b)).
+Proof.
+  intros Hf. split.
+  - intros [l [H Hin]]. apply store_service_found in H as [_ [s' [l0 [Hf' [Hg Hl]]]]].
+    rewrite Hf in Hf'. inversion Hf'. subst s'. subst l. apply filter_In in Hin as [Hin Hk].
+    unfold src_service in Hg. destruct (descriptors s eid typ) as [ds|]; [|discriminate].
+    inversion Hg. subst l0. exists ds. split; [reflexivity|]. split; [exact Hin|].
+    apply String.eqb_eq; exact Hk.
+  - intros [ds [Hd [Hin Hb]]].
+    assert (Hk : In ep (filter (keep_of (Some b)) (flat_map (fun d => select svc (d_eps d)) ds))).
+    { apply filter_In. split; [exact Hin|]. cbn. unfold has_binding. apply String.eqb_eq; exact Hb. }
+    exists (filter (keep_of (Some b)) (flat_map (fun d => select svc (d_eps d)) ds)). split; [|exact Hk].
+    apply store_service_found. split; [intros E; rewrite E in Hk; contradiction|].
+    exists s, (flat_map (fun d => select svc (d_eps d)) ds). split; [exact Hf|]. split; [|reflexivity].
+    unfold src_service. rewrite Hd. reflexivity.
 Qed.
 
 Lemma store_disco_sound m eid l :
@@ -707,7 +818,164 @@ Proof.
   exact (Hno s e Hs He).
 Qed.
 
-(* ---------------------------------------------------------------- completeness (single source) *)
+(* ---------------------------------------------------------------- the first source decides
+   (any number of sources): every operation aimed at one entity gives, on the whole store, exactly
+   what it gives on the store reduced to the first source that has that entity *)
+Lemma pick_loop_first m s eid typ svc url index bs :
+  first_with eid m = Some s ->
+  pick_loop m eid typ svc url index bs = pick_loop [s] eid typ svc url index bs.
+Proof.
+  intros Hf. induction bs as [|b r IH]; cbn [pick_loop]; [reflexivity|].
+  rewrite (store_service_first m eid typ svc (Some b) s Hf), IH. reflexivity.
+Qed.
+
+Lemma pick_binding_first m s etype prefs svc bindings descr req entity_id :
+  first_with (pb_eid req entity_id) m = Some s ->
+  pick_binding m etype prefs svc bindings descr req entity_id
+  = pick_binding [s] etype prefs svc bindings descr req entity_id.
+Proof.
+  intros Hf. unfold pick_binding. destruct (effective_bindings prefs svc bindings req); [|reflexivity].
+  apply pick_loop_first; exact Hf.
+Qed.
+
+Lemma pb_eid_requester req : pb_eid (Some req) "" = requester req.
+Proof. reflexivity. Qed.
+
+Lemma response_args_first m s etype prefs req bindings descr :
+  first_with (requester req) m = Some s ->
+  response_args m etype prefs req bindings descr = response_args [s] etype prefs req bindings descr.
+Proof.
+  intros Hf. rewrite <- pb_eid_requester in Hf. unfold response_args. cbv zeta. unfold answer_with.
+  destruct (list_eqb String.eqb bindings [B_SOAP]); [destruct (rq_class req); reflexivity|].
+  destruct (rq_class req); try reflexivity;
+    match goal with |- context [is_empty ?x] => destruct (is_empty x); [reflexivity|] end;
+    apply pick_binding_first; exact Hf.
+Qed.
+
+Lemma sso_of_first m s e b : first_with e m = Some s -> sso_of m e b = sso_of [s] e b.
+Proof. intros Hf. unfold sso_of. rewrite (store_service_first m e R_IDP S_SSO (Some b) s Hf). reflexivity. Qed.
+
+Lemma sso_location_first m s eid e b :
+  truthy eid = Some e -> first_with e m = Some s -> sso_location m eid b = sso_location [s] eid b.
+Proof. intros Ht Hf. unfold sso_location. rewrite Ht. apply sso_of_first; exact Hf. Qed.
+
+Lemma first_sso_first m s eid e bs :
+  truthy eid = Some e -> first_with e m = Some s -> first_sso m eid bs = first_sso [s] eid bs.
+Proof.
+  intros Ht Hf. induction bs as [|b r IH]; cbn [first_sso]; [reflexivity|].
+  rewrite (sso_location_first m s eid e b Ht Hf), IH. reflexivity.
+Qed.
+
+Lemma negotiated_first m s eid e binding :
+  truthy eid = Some e -> first_with e m = Some s -> negotiated m eid binding = negotiated [s] eid binding.
+Proof. intros Ht Hf. unfold negotiated. rewrite (first_sso_first m s eid e _ Ht Hf). reflexivity. Qed.
+
+Lemma slo_one_first m s pref expected e :
+  first_with e m = Some s -> slo_one m pref expected e = slo_one [s] pref expected e.
+Proof. intros Hf. unfold slo_one. rewrite (store_service_first m e R_IDP S_SLO None s Hf). reflexivity. Qed.
+
+(* the entity an operation is aimed at, when it names one *)
+Definition op_target (o : op) : option string :=
+  match o with
+  | OpAnswer _ _ req _ _ => Some (requester req)
+  | OpPick _ _ _ _ _ entity_id => Some entity_id
+  | OpSso eid _ | OpNegotiate eid _ | OpAuthenticate eid _ => truthy eid
+  | OpLogout _ _ _ | OpDisco _ _ => None
+  end.
+
+Lemma first_source_decides m s o e :
+  op_target o = Some e -> first_with e m = Some s -> run_op m o = run_op [s] o.
+Proof.
+  destruct o as [etype prefs req bindings descr|etype prefs svc bindings descr entity_id|eid b|eid b|eid b|pref expected eids|eid url];
+    cbn [op_target run_op]; intros Ht Hf; try discriminate.
+  - inversion Ht. subst e. apply response_args_first; exact Hf.
+  - inversion Ht. subst e. apply pick_binding_first; exact Hf.
+  - exact (sso_location_first m s eid e b Ht Hf).
+  - exact (negotiated_first m s eid e b Ht Hf).
+  - unfold authenticate. rewrite (negotiated_first m s eid e (Some b) Ht Hf). reflexivity.
+Qed.
+
+(* hence soundness against the first source: whatever is selected is published by THAT source
+   (the spec evaluated on the one-source store [s]), not merely by some source *)
+Lemma first_source_sound m s o e :
+  op_target o = Some e -> first_with e m = Some s -> spec [s] o (run_op m o).
+Proof. intros Ht Hf. rewrite (first_source_decides m s o e Ht Hf). apply destinations_from_metadata. Qed.
+
+Lemma unknown_entity_refused m etype prefs req bindings descr :
+  first_with (requester req) m = None ->
+  no_destination (response_args m etype prefs req bindings descr) \/ bindings = [B_SOAP].
+Proof.
+  intros Hf.
+  destruct (list_eqb String.eqb bindings [B_SOAP]) eqn:Eb.
+  { right. apply (list_eqb_eq String.eqb String.eqb_eq); exact Eb. }
+  left. apply (spec_refuses_unknown m etype prefs req bindings descr).
+  - apply (destinations_from_metadata m (OpAnswer etype prefs req bindings descr)).
+  - intros E. rewrite E in Eb. cbn in Eb. discriminate.
+  - intros s e Hs He. pose proof (proj1 (first_with_none _ _) Hf s Hs) as Hn.
+    assert (Ht : has_entity (requester req) s = true) by (apply has_entity_iff; exists e; exact He).
+    rewrite Hn in Ht. discriminate.
+Qed.
+
+(* logout: each request of the trace is decided by the first source that has its IdP *)
+Lemma slo_sent_first_source m pref expected eids e b d :
+  In (e, b, d) (fst (slo_all m pref expected eids)) ->
+  exists s, first_with e m = Some s /\ slo_one [s] pref expected e = Send b d.
+Proof.
+  induction eids as [|x r IH]; cbn [slo_all]; [cbn; contradiction|].
+  destruct (slo_one m pref expected x) as [b0 d0| |err] eqn:E1.
+  - destruct (slo_all m pref expected r) as [t er] eqn:Er. cbn [fst] in IH |- *. intros [H|H]; [|exact (IH H)].
+    inversion H. subst x b0 d0.
+    destruct (first_with e m) as [s|] eqn:Ef.
+    + exists s. split; [reflexivity|]. rewrite <- (slo_one_first m s pref expected e Ef). exact E1.
+    + exfalso. unfold slo_one in E1. rewrite (store_service_unknown m e R_IDP S_SLO None Ef) in E1. discriminate.
+  - exact IH.
+  - cbn. contradiction.
+Qed.
+
+(* the sole IdP that _sso_location falls back to is an entity whose FIRST source describes it as IdP *)
+Lemma dedup_In x l : In x (dedup l) -> In x l.
+Proof.
+  induction l as [|y r IH]; cbn [dedup]; [intros []|].
+  intros [H|H]; [left; exact H|]. apply filter_In in H as [H _]. right. exact (IH H).
+Qed.
+
+Lemma mem_false_not_In x l : mem x l = false -> ~ In x l.
+Proof. intros H Hin. apply mem_In in Hin. rewrite Hin in H. discriminate. Qed.
+
+Lemma with_idp_from_In seen m e :
+  In e (with_idp_from seen m) ->
+  mem e seen = false /\ exists s ent, first_with e m = Some s /\ In (e, ent) s /\ entity_has R_IDP ent = true.
+Proof.
+  revert seen. induction m as [|s r IH]; intros seen; cbn [with_idp_from]; [intros []|].
+  intros H. apply in_app_or in H as [H|H].
+  - apply in_map_iff in H as [[k ent] [Hk Hin]]. cbn in Hk. subst k. apply filter_In in Hin as [Hin Hc].
+    cbn [fst snd] in Hc. apply andb_true_iff in Hc as [Hidp Hseen]. apply negb_true_iff in Hseen.
+    split; [exact Hseen|]. exists s, ent. split; [|split; assumption].
+    cbn [first_with]. assert (Hh : has_entity e s = true) by (apply has_entity_iff; exists ent; exact Hin).
+    rewrite Hh. reflexivity.
+  - destruct (IH _ H) as [Hseen [s' [ent [Hf Hx]]]].
+    assert (Hn1 : ~ In e (map fst s ++ seen)%list) by (apply mem_false_not_In; exact Hseen).
+    split.
+    + destruct (mem e seen) eqn:Em; [|reflexivity]. exfalso. apply Hn1. apply in_or_app. right. apply mem_In; exact Em.
+    + exists s', ent. split; [|exact Hx]. cbn [first_with].
+      destruct (has_entity e s) eqn:Eh; [|exact Hf]. exfalso. apply has_entity_iff in Eh as [x Hin].
+      apply Hn1. apply in_or_app. left. apply in_map_iff. exists (e, x). split; [reflexivity|exact Hin].
+Qed.
+
+Lemma sole_idp_first_source m b d :
+  sso_location m None b = Loc (Some d) ->
+  exists e s ent, with_idp m = [e] /\ first_with e m = Some s /\ In (e, ent) s
+                  /\ entity_has R_IDP ent = true /\ sso_of [s] e b = Loc (Some d).
+Proof.
+  unfold sso_location. cbn [truthy]. destruct (with_idp m) as [|e [|e' r]] eqn:Ew; try discriminate.
+  intros H. assert (Hin : In e (with_idp_from [] m)).
+  { apply dedup_In. unfold with_idp in Ew. rewrite Ew. left; reflexivity. }
+  apply with_idp_from_In in Hin as [_ [s [ent [Hf [Hi Hr]]]]].
+  exists e, s, ent. split; [reflexivity|]. split; [exact Hf|]. split; [exact Hi|]. split; [exact Hr|].
+  rewrite <- (sso_of_first m s e b Hf). exact H.
+Qed.
+
+(* ---------------------------------------------------------------- completeness (any number of sources) *)
 Lemma answer_complete_single s eid ds ep b u etype prefs req descr :
   descriptors s eid R_SP = Some ds ->
   In ep (flat_map (fun d => select S_ACS (d_eps d)) ds) ->
@@ -725,16 +993,59 @@ Proof.
   assert (Et : truthy (rq_url req) = Some u) by (apply truthy_some; split; assumption).
   rewrite Et. fold (requester req). rewrite Hr.
   change (typ_of S_ACS (pb_descr etype (pb_descr etype "spsso"))) with R_SP.
-  cbn [pick_loop]. unfold store_service. cbn [store_first]. unfold src_service. rewrite Hd.
-  set (l := flat_map (fun d => select S_ACS (d_eps d)) ds) in *.
-  assert (Hf : In ep (filter (has_binding b) l)).
+  cbn [pick_loop].
+  assert (Hf : In ep (filter (has_binding b) (flat_map (fun d => select S_ACS (d_eps d)) ds))).
   { apply filter_In. split; [exact Hin|]. unfold has_binding. apply String.eqb_eq; exact Hb. }
-  destruct (filter (has_binding b) l) as [|x r] eqn:Ef; [contradiction|].
+  destruct (filter (has_binding b) (flat_map (fun d => select S_ACS (d_eps d)) ds)) as [|x r] eqn:Ef; [contradiction|].
+  assert (Hs : store_service [s] eid R_SP S_ACS (Some b) = Found (x :: r)).
+  { apply store_service_found. split; [discriminate|].
+    exists s, (flat_map (fun d => select S_ACS (d_eps d)) ds).
+    split; [apply first_with_single; exact (descriptors_has_entity _ _ _ _ Hd)|].
+    split; [unfold src_service; rewrite Hd; reflexivity|]. symmetry; exact Ef. }
+  rewrite Hs.
   assert (Hscan : scan_url (x :: r) u = true).
   { unfold scan_url. apply existsb_exists. exists ep. split; [exact Hf|]. apply String.eqb_eq; exact Hl. }
   rewrite Hscan. reflexivity.
 Qed.
 
+(* a URL registered, for the binding, in the first source that has the requester is accepted,
+   whatever later sources say about the same entityID *)
+Lemma answer_complete m s eid ds ep b u etype prefs req descr :
+  first_with eid m = Some s ->
+  descriptors s eid R_SP = Some ds ->
+  In ep (flat_map (fun d => select S_ACS (d_eps d)) ds) ->
+  ep_binding ep = b -> ep_location ep = u -> u <> "" ->
+  rq_class req = MAuthn -> requester req = eid -> rq_url req = Some u -> b <> B_SOAP ->
+  response_args m etype prefs req [b] descr = Dest b (Some u).
+Proof.
+  intros Hf Hd Hin Hb Hl Hu Hc Hr Hurl Hsoap. subst eid.
+  rewrite (response_args_first m s etype prefs req [b] descr Hf).
+  exact (answer_complete_single s (requester req) ds ep b u etype prefs req descr Hd Hin Hb Hl Hu Hc eq_refl Hurl Hsoap).
+Qed.
+
+(* a sign-on endpoint listed, for the binding, in the first source that has the IdP is found *)
+Lemma sso_complete m s e ds ep b :
+  first_with e m = Some s ->
+  descriptors s e R_IDP = Some ds ->
+  In ep (flat_map (fun d => select S_SSO (d_eps d)) ds) -> ep_binding ep = b ->
+  exists ep', In ep' (flat_map (fun d => select S_SSO (d_eps d)) ds) /\ ep_binding ep' = b
+              /\ sso_of m e b = Loc (Some (ep_location ep')).
+Proof.
+  intros Hf Hd Hin Hb.
+  assert (Hk : In ep (filter (has_binding b) (flat_map (fun d => select S_SSO (d_eps d)) ds))).
+  { apply filter_In. split; [exact Hin|]. unfold has_binding. apply String.eqb_eq; exact Hb. }
+  destruct (filter (has_binding b) (flat_map (fun d => select S_SSO (d_eps d)) ds)) as [|x r] eqn:Ef; [contradiction|].
+  assert (Hx : In x (filter (has_binding b) (flat_map (fun d => select S_SSO (d_eps d)) ds))) by (rewrite Ef; left; reflexivity).
+  apply filter_In in Hx as [Hx1 Hx2]. exists x. split; [exact Hx1|]. split; [apply String.eqb_eq; exact Hx2|].
+  assert (Hs : store_service m e R_IDP S_SSO (Some b) = Found (x :: r)).
+  { apply store_service_found. split; [discriminate|].
+    exists s, (flat_map (fun d => select S_SSO (d_eps d)) ds). split; [exact Hf|].
+    split; [unfold src_service; rewrite Hd; reflexivity|]. symmetry; exact Ef. }
+  unfold sso_of. rewrite Hs. reflexivity.
+Qed.
+
+(* the discovery-response lookup (MetadataStore.ext_service) was NOT changed: it still takes the
+   first source with a non-empty answer, so its completeness is stated for one source *)
 Lemma disco_complete_single s eid ds loc url :
   descriptors s eid R_SP = Some ds ->
   In loc (flat_map (fun d => select B_DISCO (d_disco d)) ds) ->
@@ -742,6 +1053,38 @@ Lemma disco_complete_single s eid ds loc url :
   verify_return [s] eid url = Approved true.
 Proof.
   intros Hd Hin Hp. unfold verify_return, store_disco. cbn [store_first]. unfold src_disco. rewrite Hd.
+  set (l := flat_map (fun d => select B_DISCO (d_disco d)) ds) in *.
+  assert (Hf : filter (fun _ : string => true) l = l).
+  { clear. induction l as [|x r IH]; cbn; [reflexivity|rewrite IH; reflexivity]. }
+  rewrite Hf. destruct l as [|x r] eqn:El; [contradiction|].
+  assert (He : existsb (fun loc0 => startswith url loc0) (x :: r) = true).
+  { apply existsb_exists. exists loc. split; [exact Hin|exact Hp]. }
+  rewrite He. reflexivity.
+Qed.
+
+(* with more sources: the earlier sources must have nothing to say about the requester's
+   discovery responses (ext_service skips them) *)
+Lemma store_first_skip {A} (get : source -> option (list A)) keep pre rest known :
+  (forall s', In s' pre -> get s' = None \/ exists l0, get s' = Some l0 /\ filter keep l0 = []) ->
+  exists known', store_first get keep (pre ++ rest)%list known = store_first get keep rest known'.
+Proof.
+  revert known. induction pre as [|x r IH]; intros known Hpre; cbn [app store_first].
+  - exists known. reflexivity.
+  - destruct (Hpre x (or_introl eq_refl)) as [->|[l0 [-> ->]]]; apply IH; intros s' Hin; apply Hpre; right; exact Hin.
+Qed.
+
+Lemma disco_complete m pre s post eid ds loc url :
+  m = (pre ++ s :: post)%list ->
+  (forall s', In s' pre -> src_disco B_DISCO eid s' = None \/ src_disco B_DISCO eid s' = Some []) ->
+  descriptors s eid R_SP = Some ds ->
+  In loc (flat_map (fun d => select B_DISCO (d_disco d)) ds) ->
+  String.prefix loc url = true ->
+  verify_return m eid url = Approved true.
+Proof.
+  intros -> Hpre Hd Hin Hp. unfold verify_return, store_disco.
+  destruct (store_first_skip (src_disco B_DISCO eid) (fun _ => true) pre (s :: post) false) as [k ->].
+  { intros s' Hs'. destruct (Hpre s' Hs') as [H|H]; [left; exact H|right]. exists []. split; [exact H|reflexivity]. }
+  cbn [store_first]. unfold src_disco. rewrite Hd.
   set (l := flat_map (fun d => select B_DISCO (d_disco d)) ds) in *.
   assert (Hf : filter (fun _ : string => true) l = l).
   { clear. induction l as [|x r IH]; cbn; [reflexivity|rewrite IH; reflexivity]. }
@@ -825,6 +1168,50 @@ Proof. vm_compute. reflexivity. Qed.
    This is what the property text asks for; see notes/C08.md (hardening remark, not a finding). *)
 Example ex_disco_prefix_is_literal :
   verify_return ex_md "https://sp.example.org/sp.xml" "https://sp.example.org/disco.evil.com/" = Approved true.
+Proof. vm_compute. reflexivity. Qed.
+
+(* first source wins (d8b1d2a4): the same entityID in two sources; the Artifact consumer service
+   only the SECOND source lists is not served any more, the first source's POST endpoint is *)
+Definition ex_sp_later : string * entity :=
+  ("https://sp.example.org/sp.xml",
+   [(R_SP, Desc [(S_ACS, EPt B_ARTIFACT "https://sp.example.org/v2/acs/artifact" (Some "1") None)]
+               [(B_DISCO, "https://sp.example.org/v2/disco")])]).
+Definition ex_md2 : md := [[ex_idp]; [ex_sp]; [ex_sp_later]].
+
+Example ex_first_with : first_with "https://sp.example.org/sp.xml" ex_md2 = Some [ex_sp].
+Proof. vm_compute. reflexivity. Qed.
+
+Example ex_later_source_not_served :
+  response_args ex_md2 "idp" ex_prefs (ex_req (Some "https://sp.example.org/v2/acs/artifact") None None) [B_ARTIFACT] ""
+  = Fail ESaml
+  /\ store_service ex_md2 "https://sp.example.org/sp.xml" R_SP S_ACS (Some B_ARTIFACT) = Unsupported
+  /\ store_service_v0 ex_md2 "https://sp.example.org/sp.xml" R_SP S_ACS (Some B_ARTIFACT)
+     = Found [EPt B_ARTIFACT "https://sp.example.org/v2/acs/artifact" (Some "1") None].
+Proof. vm_compute. repeat split. Qed.
+
+Example ex_first_source_served :
+  response_args ex_md2 "idp" ex_prefs (ex_req (Some "https://sp.example.org/acs/post") None None) [B_POST] ""
+  = Dest B_POST (Some "https://sp.example.org/acs/post").
+Proof.
+  eapply (answer_complete ex_md2 [ex_sp] "https://sp.example.org/sp.xml" _
+            (EPt B_POST "https://sp.example.org/acs/post" (Some "1") None)); try reflexivity.
+  - vm_compute. left. reflexivity.
+  - discriminate.
+  - discriminate.
+Qed.
+
+(* an entity the first source knows only as SP is not an IdP for the store, even if a later
+   source describes it as one (18964551) *)
+Example ex_with_idp_first_source :
+  with_idp [[("https://x.example.org", [(R_SP, Desc [] [])])];
+            [("https://x.example.org", [(R_IDP, Desc [] [])]); ex_idp]]
+  = ["https://idp.example.org/idp.xml"].
+Proof. vm_compute. reflexivity. Qed.
+
+(* ext_service still falls through: the discovery response of the later source is approved *)
+Example ex_disco_still_falls_through :
+  verify_return [[("https://sp.example.org/sp.xml", [(R_SP, Desc [] [])])]; [ex_sp_later]]
+                "https://sp.example.org/sp.xml" "https://sp.example.org/v2/disco?x" = Approved true.
 Proof. vm_compute. reflexivity. Qed.
 
 (* the pinned snapshot's verify_return violated the property: a return URL that extends no
